@@ -248,8 +248,10 @@ def c05_agree(d, gaps=()):
 def c05(res):
     out = []
     gaps = set()
+    loaded = False
     for rec, t, prev, d, vars_ in Walk(res):
-        if rec["op"] in ("new", "load"): gaps = set()
+        if rec["op"] in ("new", "load"): gaps = set(); loaded = rec["op"] == "load"
+
         if d is None or rec["res"] != "R ok": continue
         if rec["op"] == "frame" and prev is not None:
             idx = int(t[2]) if len(t) > 2 else None
@@ -261,6 +263,7 @@ def c05(res):
         nsubs = set(len(f["subs"]) for i, f in enumerate(d["frames"]) if i not in gaps)
         if len(nsubs) > 1: return out
         for clause, detail in c05_agree(d, gaps):
+            if clause == "labellike_count" and loaded: continue     # a file may store e.g. UNITS as one string: not declared by name
             where = {"op": rec["n"], "call": rec["op"], "frame0_gap": 0 in gaps}
             if rec["op"] == "param": where["group"] = t[1]; where["name"] = t[2]
             if rec["op"] == "frame": where["emptyframe"] = not (vars_.get(t[1], EMPTY)["pts"] or vars_.get(t[1], EMPTY)["subs"])
